@@ -11,6 +11,8 @@
                              tok: z | t | f | n<hex lexeme> | s<hex> | a<count> | o<count> (then key s<hex>, value)
                              -> "ok <hex>"  |  "bad"
     SM <gap> <tok>*          mechanism-level serialiser Mech.strM; extra tokens u (undefined) and F (function)
+    SC <gap> <tok>*          Cycle.strC; tokens u z t f n<hex> s<hex> F<id> A<id>:<n> O<id>:<n> R<id> (identities, shared / back references)
+    SB <gap> <tok>*          Boxed.strB; extra tokens I g Xn<hex> Xi Xs<hex> Xt Xf Xg Xy (boxed primitives, BigInt, non-finite)
     SL <gap> <n> <item>*n <tok>*   the same with a replacer allow-list of n items (s<hex> | n<hex canonical text>)
     SR <gap> <mode> D <s-key>* Z <s-key>* W <s-key>* V <tok>*   stringify with toJSON hooks / a replacer function from the
                              catalogue `catHooks` -> "ok <hex text> C <log>" | "undef C <log>"
@@ -29,6 +31,8 @@ import GojaModel.C19.Tok
 import GojaModel.C19.ReviverMut
 import GojaModel.C19.Mech
 import GojaModel.C19.Utf8View
+import GojaModel.C19.Boxed
+import GojaModel.C19.Cycle
 
 namespace GojaModel.C19.Driver
 open GojaModel.Proto GojaModel.C19
@@ -356,6 +360,141 @@ def doStringifyM (ws : List String) : String :=
     | _, _ => "bad"
   | [] => "bad"
 
+/-- value tokens with boxed primitives / BigInt / non-finite numbers → BVal
+    (I non-finite number, g BigInt, Xn<hex> new Number, Xi new Number(Infinity), Xs<hex> new String, Xt / Xf new Boolean,
+     Xg Object(1n), Xy Object(Symbol())) -/
+partial def readBVal : List String → Option (BVal × List String)
+  | [] => none
+  | tok :: rest =>
+    match tok.toList with
+    | ['u'] => some (.undef, rest)
+    | ['F'] => some (.undef, rest)
+    | ['z'] => some (.null, rest)
+    | ['t'] => some (.bool true, rest)
+    | ['f'] => some (.bool false, rest)
+    | ['I'] => some (.nonfin, rest)
+    | ['g'] => some (.big, rest)
+    | ['X', 'i'] => some (.boxNonfin, rest)
+    | ['X', 't'] => some (.boxBool true, rest)
+    | ['X', 'f'] => some (.boxBool false, rest)
+    | ['X', 'g'] => some (.boxBig, rest)
+    | ['X', 'y'] => some (.boxSym, rest)
+    | 'X' :: 'n' :: h => (unhex (String.ofList h)).map fun l => (.boxNum l, rest)
+    | 'X' :: 's' :: h => (unhex (String.ofList h)).map fun x => (.boxStr x, rest)
+    | 'n' :: h => (unhex (String.ofList h)).map fun l => (.num l, rest)
+    | 's' :: h => (unhex (String.ofList h)).map fun x => (.str x, rest)
+    | 'a' :: n =>
+      let rec elems : Nat → List String → List BVal → Option (List BVal × List String)
+        | 0, r, acc => some (acc.reverse, r)
+        | k + 1, r, acc => match readBVal r with
+          | some (v, r') => elems k r' (v :: acc)
+          | none => none
+      (String.ofList n).toNat?.bind fun k => (elems k rest []).map fun (xs, r) => (.arr xs, r)
+    | 'o' :: n =>
+      let rec mems : Nat → List String → List (Str × BVal) → Option (List (Str × BVal) × List String)
+        | 0, r, acc => some (acc.reverse, r)
+        | k + 1, r, acc => match r with
+          | key :: r1 =>
+            match key.toList with
+            | 's' :: h =>
+              match unhex (String.ofList h), readBVal r1 with
+              | some ks, some (v, r') => mems k r' ((ks, v) :: acc)
+              | _, _ => none
+            | _ => none
+          | [] => none
+      (String.ofList n).toNat?.bind fun k => (mems k rest []).map fun (ms, r) => (.obj ms, r)
+    | _ => none
+
+/-- `SB <gap> <tok>*` : Boxed.strB (str with its unwrapping switch; TypeError for BigInt) -/
+def doStringifyB (ws : List String) : String :=
+  match ws with
+  | g :: toks =>
+    match readGap g, readBVal toks with
+    | some gap, some (v, []) =>
+      (match stringifyB gap v with
+       | .typeError => "throw:TypeError"
+       | .undef => "undef"
+       | .text t => "ok " ++ String.ofList (hexS t))
+    | _, _ => "bad"
+  | [] => "bad"
+
+/-- reader state for values with identities: finished objects by id, and the ids (with kind: true = array) that are open -/
+structure CEnv where
+  closed : List (Nat × CVal)
+  opened : List (Nat × Bool)
+
+def CEnv.find (e : CEnv) (id : Nat) : Option CVal := (e.closed.find? fun p => p.1 == id).map (·.2)
+
+/-- tokens: u | z t f n<hex> s<hex> (leaves) | F<id> function | A<id>:<n> array | O<id>:<n> object | R<id> reference to an
+    identity introduced earlier: the same object again if it is finished, a back-reference (cycle) if it is still open -/
+partial def readCVal : List String → CEnv → Option (CVal × List String × CEnv)
+  | [], _ => none
+  | tok :: rest, e =>
+    match tok.toList with
+    | ['u'] => some (.undef, rest, e)
+    | ['z'] => some (.leaf [110, 117, 108, 108], rest, e)
+    | ['t'] => some (.leaf [116, 114, 117, 101], rest, e)
+    | ['f'] => some (.leaf [102, 97, 108, 115, 101], rest, e)
+    | 'n' :: h => (unhex (String.ofList h)).map fun l => (.leaf l, rest, e)
+    | 's' :: h => (unhex (String.ofList h)).map fun x => (.leaf (quote x), rest, e)
+    | 'F' :: d => (String.ofList d).toNat?.map fun id => (.fn id, rest, { e with closed := (id, .fn id) :: e.closed })
+    | 'R' :: d =>
+      (String.ofList d).toNat?.bind fun id =>
+        match e.opened.find? fun p => p.1 == id with
+        | some (_, true) => some (.arr id [], rest, e)
+        | some (_, false) => some (.obj id [], rest, e)
+        | none => (e.find id).map fun v => (v, rest, e)
+    | 'A' :: d =>
+      match (String.ofList d).splitOn ":" with
+      | [a, b] =>
+        match a.toNat?, b.toNat? with
+        | some id, some n =>
+          let rec elems : Nat → List String → CEnv → List CVal → Option (List CVal × List String × CEnv)
+            | 0, r, e1, acc => some (acc.reverse, r, e1)
+            | k + 1, r, e1, acc => match readCVal r e1 with
+              | some (v, r', e2) => elems k r' e2 (v :: acc)
+              | none => none
+          (elems n rest { e with opened := (id, true) :: e.opened } []).map fun (xs, r, e1) =>
+            (.arr id xs, r, { closed := (id, .arr id xs) :: e1.closed, opened := e.opened })
+        | _, _ => none
+      | _ => none
+    | 'O' :: d =>
+      match (String.ofList d).splitOn ":" with
+      | [a, b] =>
+        match a.toNat?, b.toNat? with
+        | some id, some n =>
+          let rec mems : Nat → List String → CEnv → List (Str × CVal) → Option (List (Str × CVal) × List String × CEnv)
+            | 0, r, e1, acc => some (acc.reverse, r, e1)
+            | k + 1, r, e1, acc => match r with
+              | key :: r1 =>
+                match key.toList with
+                | 's' :: h =>
+                  match unhex (String.ofList h) with
+                  | some ks => (match readCVal r1 e1 with
+                                | some (v, r', e2) => mems k r' e2 ((ks, v) :: acc)
+                                | none => none)
+                  | none => none
+                | _ => none
+              | [] => none
+          (mems n rest { e with opened := (id, false) :: e.opened } []).map fun (ms, r, e1) =>
+            (.obj id ms, r, { closed := (id, .obj id ms) :: e1.closed, opened := e.opened })
+        | _, _ => none
+      | _ => none
+    | _ => none
+
+/-- `SC <gap> <tok>*` : Cycle.strC (stack lookup, push, pop) on a value with object identities -/
+def doStringifyC (ws : List String) : String :=
+  match ws with
+  | g :: toks =>
+    match readGap g, readCVal toks { closed := [], opened := [] } with
+    | some gap, some (v, [], _) =>
+      (match strC gap v [] [] [] with
+       | .typeError => "throw:TypeError"
+       | .ok b _ true st => "ok " ++ String.ofList (hexS b) ++ (if st.isEmpty then "" else " STACK-NOT-RESTORED")
+       | .ok _ _ false _ => "undef")
+    | _, _ => "bad"
+  | [] => "bad"
+
 def step (line : String) : String :=
   match words line with
   | ["P"] => doParse ""
@@ -363,6 +502,8 @@ def step (line : String) : String :=
   | "S" :: rest => doStringify rest
   | "SL" :: rest => doStringifyPL rest
   | "SM" :: rest => doStringifyM rest
+  | "SB" :: rest => doStringifyB rest
+  | "SC" :: rest => doStringifyC rest
   | "RV" :: rest => doRevive rest
   | "SR" :: rest => doStringifyH rest
   | "RM" :: rest => doReviveM rest
